@@ -463,6 +463,8 @@ def _shrink_failures(mod, rec, tier):
         if f.get('shrunk'):
             continue
         kind = f['kind']
+        if kind in getattr(mod, 'NO_SHRINK', ()):
+            continue
 
         def still(c, bucket=bucket, kind=kind):
             r = Rec(rec.prop_id, rec.known)
